@@ -129,7 +129,74 @@ func resultNames(con *Contract, sig *types.Signature) []string {
 	return names
 }
 
+// applyCallback handles an extern that runs a function literal inside a transaction:
+//   callback txn dbVar:txVar ...
+// begin: every txVar := dbVar; r := closure(tx); the extern's own commit may fail; committed iff the
+// result is nil; on commit every dbVar := txVar, otherwise the db variables are unchanged.
+func (e *Exec) applyCallback(con *Contract, sig *types.Signature, args []Value, guard string) Value {
+	s := e.st
+	e.usedCallees[con.Key] = true
+	f := strings.Fields(con.Callback)
+	if len(f) < 2 || f[0] != "txn" {
+		unsupportedf("callback kind %q", con.Callback)
+	}
+	var cl *Closure
+	for _, a := range args {
+		if a.Fn != nil {
+			cl = a.Fn
+		}
+	}
+	if cl == nil {
+		unsupportedf("callback extern %s needs a function literal argument", con.RawName)
+	}
+	type pair struct{ db, tx string }
+	var pairs []pair
+	for _, p := range f[1:] {
+		kv := strings.SplitN(p, ":", 2)
+		pairs = append(pairs, pair{kv[0], kv[1]})
+	}
+	ghostComps := func(name string) []SlotDesc {
+		g := e.CS.Ghost[name]
+		if g == nil {
+			panic(contractError{fmt.Sprintf("%s: callback names unknown ghost variable %s", con.RawName, name)})
+		}
+		env := &Env{e: e, st: s, pkgPath: g.PkgPath}
+		return slotsOf(env.resolveType(g.Ty))
+	}
+	// begin
+	for _, p := range pairs {
+		for _, sd := range ghostComps(p.db) {
+			cur := e.compTerm(s, "G|"+p.db+sd.Path, sd.Sort)
+			e.frameCheck("G|"+p.tx+sd.Path, "")
+			e.setComp(s, "G|"+p.tx+sd.Path, sd.Sort, cur)
+		}
+	}
+	// the transaction handle
+	txT := cl.Fn.Signature.Params().At(0).Type()
+	tx := Value{T: txT, S: []string{e.alloc(s, types.NewArray(tInt, 0))}}
+	r := e.callFunction(cl.Fn, cl.Bindings, []Value{tx}, guard)
+	// commit
+	commitErr := e.freshValue("commiterr", sig.Results().At(0).Type())
+	e.assumeWF(s, commitErr, false)
+	rNil := "(and (= " + r.S[0] + " 0) (= " + r.S[1] + " 0))"
+	res := iteValue(rNil, commitErr, r)
+	e.nameSlots(&res, "txres")
+	committed := e.define("committed", "Bool", "(and "+rNil+" (= "+commitErr.S[0]+" 0) (= "+commitErr.S[1]+" 0))")
+	for _, p := range pairs {
+		for _, sd := range ghostComps(p.db) {
+			cur := e.compTerm(s, "G|"+p.db+sd.Path, sd.Sort)
+			txv := e.compTerm(s, "G|"+p.tx+sd.Path, sd.Sort)
+			e.frameCheck("G|"+p.db+sd.Path, "")
+			e.setComp(s, "G|"+p.db+sd.Path, sd.Sort, "(ite "+committed+" "+txv+" "+cur+")")
+		}
+	}
+	return res
+}
+
 func (e *Exec) applyContractFull(con *Contract, fn *ssa.Function, sig *types.Signature, args []Value, nargs int, guard, caseLabel string) Value {
+	if con.Callback != "" {
+		return e.applyCallback(con, sig, args, guard)
+	}
 	s := e.st
 	if con.NoFrame {
 		unsupportedf("call of %s, whose contract says 'modifies anything'", con.RawName)
@@ -197,12 +264,23 @@ func (e *Exec) applyContractFull(con *Contract, fn *ssa.Function, sig *types.Sig
 	// frame
 	var mods []modEntry
 	for i, m := range con.Modifies {
-		mods = append(mods, e.modEntriesSafe(env, m, con.ModText[i], con)...)
+		ents := e.modEntriesSafe(env, m, con.ModText[i], con)
+		if i < len(con.ModCond) && con.ModCond[i] != nil {
+			c := e.evalSpecBool(env, con.ModCond[i], con, "modifies-if")
+			for k := range ents {
+				ents[k].cond = c
+			}
+		}
+		mods = append(mods, ents...)
 	}
 	for _, m := range mods {
 		cur := e.compTerm(s, m.comp, e.compSort[m.comp])
 		sort := e.compSort[m.comp]
 		var nw string
+		saveR := e.reach
+		if m.cond != "" {
+			e.reach = e.define("modg", "Bool", "(and "+saveR+" "+m.cond+")")
+		}
 		if m.ref == "" {
 			e.frameCheck(m.comp, "")
 			nw = e.freshConst("hv_"+m.comp, sort)
@@ -210,6 +288,10 @@ func (e *Exec) applyContractFull(con *Contract, fn *ssa.Function, sig *types.Sig
 			e.frameCheck(m.comp, m.ref)
 			_, rng := splitArraySort(sort)
 			nw = "(store " + cur + " " + m.ref + " " + e.freshConst("hv_"+m.comp, rng) + ")"
+		}
+		e.reach = saveR
+		if m.cond != "" {
+			nw = "(ite " + m.cond + " " + nw + " " + cur + ")"
 		}
 		if guard != "" && guard != "true" {
 			nw = "(ite " + guard + " " + nw + " " + cur + ")"
